@@ -81,6 +81,12 @@ func WithExpireAfterDuration(d time.Duration) PolicyOption {
 	}
 }
 
+// sharedIntermediateKeyCache reports whether sessions share one Intermediate Key cache: the
+// SharedIntermediateKeyCache option is ignored if CacheIntermediateKeys is disabled.
+func (p *CryptoPolicy) sharedIntermediateKeyCache() bool {
+	return p.CacheIntermediateKeys && p.SharedIntermediateKeyCache
+}
+
 // WithNoCache disables caching of both System and Intermediate Keys.
 func WithNoCache() PolicyOption {
 	return func(policy *CryptoPolicy) {
